@@ -101,4 +101,11 @@ var propSpecs = []PropSpec{
 		NotDecided:  "the state machine of the matcher itself (which paths are reported for which chains): completeness/precision over all expression shapes is a semantic property of onPropAccess/onIndexAccess/onObjectFilter",
 		Assumptions: commonAssumptions,
 	},
+	{
+		ID:          "C17",
+		Rules:       []string{"C17.MONO", "C17.ARG", "C17.CONSUME", "C17.COL", "C17.TERM"},
+		Explanation: "Recogniser == documentation is not decidable here; decided are: (MONO) no error emission of the shared validator is control-dependent on isRef being false, and the path-only pre-checks only test characters refs reject: ref-accepted implies path-accepted; (ARG) the character argument of every unexpected/invalidRefChar call is the variable holding the consumed rune, the rune constant of an enclosing case, or EOF - never a fresh Peek(); (CONSUME) every scan.Next() either consumes a character known from look-ahead, or its result is dispatched by a switch with cases for both line-break characters, or follows an already reported error; (COL) the error column comes from scanner.Position.Column; (TERM) each call of validateNext consumes a character and returns true only when the look-ahead is not EOF, the [...] loop consumes per iteration.",
+		NotDecided:  "which strings are reported (language of the recogniser), message texts, the column arithmetic of rule_glob",
+		Assumptions: commonAssumptions,
+	},
 }
